@@ -105,6 +105,19 @@ CLAIMED = {
         "technique": "Coq proof (refinement of an abstract map by induction over histories) + translated path sites + differential correspondence",
         "design_ref": "DESIGN.md section 4, C05",
     },
+    "C13": {
+        "level": "proof",
+        "text": "Coq theorems for any dataset (any number of dimensions, variables, sizes): find_missing reports exactly "
+                "the grid locations that are all-null, never one with data, as a sublist of the grid in product order "
+                "(duplicate-free); parse_into_cases returns exactly the requested settings that are absent or all-null; "
+                "harvesting the reported cases leaves nothing missing; plus a structural tie (which criterion / dims are "
+                "forwarded) regenerated from case_runner.py. Differential execution on random xarray Datasets incl. the "
+                "find -> harvest -> find loop on a real Harvester.",
+        "note": "xarray sel / isnull / all / dims order are modelled (Model/DsMap.v) and validated by correspondence, not "
+                "proved. Trusted: Coq kernel, gen_missing translator. No axioms.",
+        "technique": "Coq proof (filter / product lemmas over a dataset model) + translated wiring + differential correspondence",
+        "design_ref": "DESIGN.md section 4, C13",
+    },
     "C14": {
         "level": "proof",
         "text": "PARTIAL. Proved (over definitions regenerated from manage.py / farming.py): the file used is the given "
@@ -128,6 +141,20 @@ CLAIMED = {
                 "oracle). pandas concat / IO is library behaviour validated by correspondence. No axioms.",
         "technique": "Coq proof (append-only state machine + C03 row theorem) + differential history correspondence",
         "design_ref": "DESIGN.md section 4, C15",
+    },
+    "C06": {
+        "level": "proof",
+        "text": "Coq: the labelled-output description that reaches the Dataset / DataFrame builder through a farmer's "
+                "crop (reap_runner -> reap_combos_to_ds) is the runner's own, with constants passed as constants, and "
+                "the sown settings merge resources / constants with the precedence of a direct run (wiring regenerated "
+                "from cropping.py / farming.py); C06_runner composes C04's round-trip theorem with the labelling model: "
+                "the Dataset built from the reaped crop equals the one built from the direct sweep. Differential "
+                "execution of Runner / Harvester / Sampler crops against direct runs, incl. reload by name in the same "
+                "and in a fresh OS process, last-result recording and the on-disk harvester / sampler data.",
+        "note": "Trusted: Coq kernel; gen_farmer translator; Dataset equality is checked on real xarray objects up to "
+                "axis order; constants given only at sow time are not persisted (documented limitation). No axioms.",
+        "technique": "Coq proof (composition of C04 round trip with the labelling model over translated call wiring) + differential farmer-crop correspondence",
+        "design_ref": "DESIGN.md section 4, C06",
     },
     "C07": {
         "level": "proof",
